@@ -35,6 +35,7 @@ func checkC11(c *Ctx) {
 	c.Rule("C11.R2", "parent links follow entries: every node literal initialises parent or becomes the root; every placement of an entry with a possibly non-nil child into a node's entries is paired with child.parent = that node, or the entry already belongs to that node")
 	c.Rule("C11.R3", "every mutation of a node's entries under Insert/Delete is followed, before the operation returns, by the upward pass that stores the recomputed envelope into the parent's entry")
 	c.Rule("C11.R4", "Insert changes size by exactly +1 on every path; Delete returns true only after removing one entry and decrementing size once, and returns false only on paths that performed no store to tree state")
+	c.Rule("C11.R5", "every append to the entries of a node that is linked into the tree (not one of the two groups a split is filling) is followed on every path by a test of len(entries) against MaxChildren whose overflow branch splits that node")
 	c.Rule("C11.R6", "intersect ⇔ closed boxes share a point, containsRect ⇔ r2 ⊆ r1, containsPoint ⇔ closed containment, enlarge/boundingBox = lattice join (all weak orderings, exhaustive); the search visits every entry whose box intersects the query and no other filter is applied")
 	p := c.P.Pkg("index/rtree")
 	if p == nil {
@@ -49,12 +50,14 @@ func checkC11(c *Ctx) {
 	a.r2()
 	a.r3()
 	a.r4()
+	a.r5()
 	a.r6()
 	c.exhaust = true
 	c.Floor("C11.R1", 3)
 	c.Floor("C11.R2", 6)
 	c.Floor("C11.R3", 3)
 	c.Floor("C11.R4", 2)
+	c.Floor("C11.R5", 2)
 	c.Floor("C11.R6", 5)
 }
 
@@ -1421,5 +1424,178 @@ func (a *c11) r6() {
 		if !bad {
 			c.OK("C11.R6", name, pos, "closed containment in all %d orderings", n)
 		}
+	}
+}
+
+// ---------------------------------------------------------------- R5
+
+func (a *c11) r5() {
+	c := a.c
+	if a.split == nil {
+		c.Unk("C11.R5", "index/rtree#split", token.NoPos, "split routine not found")
+		return
+	}
+	// functions that only serve the split (fill the two groups): reachable from split
+	inSplit := map[*types.Func]bool{a.split: true}
+	var visit func(f *types.Func)
+	visit = func(f *types.Func) {
+		ast.Inspect(c.P.Decl(f).Body, func(n ast.Node) bool {
+			if call, ok := n.(*ast.CallExpr); ok {
+				if g := callee(a.info, call); g != nil && c.P.Decl(g) != nil && g.Pkg() == f.Pkg() && !inSplit[g] {
+					inSplit[g] = true
+					visit(g)
+				}
+			}
+			return true
+		})
+	}
+	visit(a.split)
+	var maxField *types.Var
+	st := a.treeT.Underlying().(*types.Struct)
+	for i := 0; i < st.NumFields(); i++ {
+		if st.Field(i).Name() == "MaxChildren" {
+			maxField = st.Field(i)
+		}
+	}
+	if maxField == nil {
+		c.Unk("C11.R5", "index/rtree.Rtree.MaxChildren", token.NoPos, "exported fan-out bound not found")
+		return
+	}
+	n := 0
+	for _, fn := range a.pkgFuncs {
+		if inSplit[fn] {
+			continue
+		}
+		fd := c.P.Decl(fn)
+		// append sites
+		var sites []*ast.AssignStmt
+		ast.Inspect(fd.Body, func(nd ast.Node) bool {
+			as, ok := nd.(*ast.AssignStmt)
+			if !ok || len(as.Lhs) != 1 || len(as.Rhs) != 1 {
+				return true
+			}
+			X := a.fieldSel(as.Lhs[0], a.entries)
+			call, isCall := unparen(as.Rhs[0]).(*ast.CallExpr)
+			if X == nil || !isCall || builtinName(a.info, call) != "append" || call.Ellipsis.IsValid() {
+				return true
+			}
+			if x0 := a.fieldSel(call.Args[0], a.entries); x0 == nil || !sameExpr(a.info, x0, X) {
+				return true
+			}
+			sites = append(sites, as)
+			return true
+		})
+		for _, site := range sites {
+			n++
+			X := a.fieldSel(site.Lhs[0], a.entries)
+			key := src(X)
+			cons := fmt.Sprintf("%s#append:%s", c.P.FuncName(fn), key)
+			bad := ""
+			var badPos token.Pos
+			cl := &FactsClient{}
+			cl.OnStmt = func(nd ast.Node, s Facts) Facts {
+				if nd == ast.Node(site) {
+					s["pending"] = true
+					return s
+				}
+				// X reassigned: the expression no longer denotes the node that grew
+				if as, ok := nd.(*ast.AssignStmt); ok {
+					for _, l := range as.Lhs {
+						if o := objOf(a.info, l); o != nil && mentions(a.info, X, o) && s["pending"] {
+							// `leaf, split = leaf.split(…)` inside the overflow branch is the split itself
+							if len(as.Rhs) == 1 {
+								if call, ok := unparen(as.Rhs[0]).(*ast.CallExpr); ok && callee(a.info, call) == a.split {
+									continue
+								}
+							}
+							delete(s, "pending")
+							s["lost"] = true
+						}
+					}
+				}
+				return s
+			}
+			cl.OnBranch = func(cond ast.Expr, truth bool, s Facts) Facts {
+				if !s["pending"] {
+					return s
+				}
+				for _, at := range conjuncts(cond, truth) {
+					b, ok := unparen(at.E).(*ast.BinaryExpr)
+					if !ok {
+						continue
+					}
+					la := lenArg(a.info, b.X)
+					if la == nil {
+						continue
+					}
+					if x := a.fieldSel(la, a.entries); x == nil || src(x) != key {
+						continue
+					}
+					if a.fieldSel(b.Y, maxField) == nil {
+						continue
+					}
+					over := (b.Op == token.GTR && at.Truth) || (b.Op == token.LEQ && !at.Truth)
+					within := (b.Op == token.GTR && !at.Truth) || (b.Op == token.LEQ && at.Truth)
+					if within {
+						delete(s, "pending")
+					}
+					if over {
+						delete(s, "pending")
+						s["overflow"] = true
+					}
+				}
+				return s
+			}
+			splitSeen := func(nd ast.Node) bool {
+				found := false
+				ast.Inspect(nd, func(m ast.Node) bool {
+					if call, ok := m.(*ast.CallExpr); ok && callee(a.info, call) == a.split {
+						if sel, ok := unparen(call.Fun).(*ast.SelectorExpr); ok && src(sel.X) == key {
+							found = true
+						}
+					}
+					return true
+				})
+				return found
+			}
+			inner := cl.OnStmt
+			cl.OnStmt = func(nd ast.Node, s Facts) Facts {
+				if s["overflow"] {
+					if _, isRange := nd.(*ast.RangeStmt); !isRange && splitSeen(nd) {
+						delete(s, "overflow")
+					}
+				}
+				return inner(nd, s)
+			}
+			cl.OnReturn = func(r *ast.ReturnStmt, s Facts) {
+				if r != nil && s["overflow"] {
+					for _, e := range r.Results {
+						if splitSeen(e) {
+							delete(s, "overflow")
+						}
+					}
+				}
+				pos := fd.End()
+				if r != nil {
+					pos = r.Pos()
+				}
+				if (s["pending"] || s["overflow"] || s["lost"]) && bad == "" {
+					bad, badPos = "after `"+src(site)+"` a path returns without comparing len("+key+".entries) with MaxChildren and splitting the node on overflow: the node can exceed the maximum fan-out", pos
+				}
+			}
+			fl := &Flow[Facts]{C: cl, Info: a.info}
+			fl.Run(fd.Body, Facts{})
+			switch {
+			case len(fl.Unsupported) > 0:
+				c.Unk("C11.R5", cons, fl.Unsupported[0].Pos(), "unsupported control flow")
+			case bad != "":
+				c.Bad("C11.R5", cons, badPos, "%s", bad)
+			default:
+				c.OK("C11.R5", cons, site.Pos(), "overflow is tested and split on every path")
+			}
+		}
+	}
+	if n == 0 {
+		c.Unk("C11.R5", "index/rtree#appends", token.NoPos, "no append to a linked node's entries found")
 	}
 }
